@@ -232,6 +232,13 @@ func (g *FnGen) processBlock(b *ssa.BasicBlock) {
 		} else if !g.sweep && g.C != nil && !g.C.Trusted {
 			g.assumptions[fmt.Sprintf("loop %d of %s has no invariant (treated as true)", li.ordinal, g.name)] = true
 		}
+		// range-over-slice loops: the hidden index obeys -1 <= idx < len by construction of the
+		// SSA pattern; it is emitted as a checked invariant rather than assumed.
+		autoInv := g.rangeIndexInvariants(b)
+		for _, ai := range autoInv {
+			in := g.phiIncoming(ai.phi, b, preds)
+			g.oblige("invariant-entry", fmt.Sprintf("loop%d:auto-rangeindex", li.ordinal), guard, ai.inv(in), "range index starts at -1", b.Instrs[0].Pos())
+		}
 		// 2. havoc
 		for _, k := range sortedKeys(li.mods) {
 			if k == "*" {
@@ -278,6 +285,10 @@ func (g *FnGen) processBlock(b *ssa.BasicBlock) {
 				g.entryVals[fmt.Sprintf("loop%d", li.ordinal)] = g.def("measure", sortBV64, to64(v))
 			}
 		}
+		for _, ai := range autoInv {
+			g.assume(guard, ai.inv(g.vals[ai.phi].T), "auto-rangeindex")
+		}
+		g.autoInvs[b] = autoInv
 		g.assumeGlobals(guard)
 	} else {
 		for _, ins := range b.Instrs {
@@ -304,15 +315,18 @@ func (g *FnGen) processBlock(b *ssa.BasicBlock) {
 		}
 		li := g.loops[s]
 		spec := g.loopSpec(li)
-		if spec == nil {
-			continue
-		}
 		eg := g.exitGuard(b, s)
 		idx := -1
 		for i, q := range s.Preds {
 			if q == b {
 				idx = i
 			}
+		}
+		for _, ai := range g.autoInvs[s] {
+			g.oblige("invariant-preserved", fmt.Sprintf("loop%d:auto-rangeindex", li.ordinal), eg, ai.inv(g.val(ai.phi.Edges[idx]).T), "range index stays below the length", token.NoPos)
+		}
+		if spec == nil {
+			continue
 		}
 		env := g.loopEnv(s, func(phi *ssa.Phi) Val {
 			v := g.val(phi.Edges[idx])
@@ -392,6 +406,12 @@ func (g *FnGen) instr(ins ssa.Instruction) {
 	case *ssa.Index:
 		av := g.val(x.X)
 		iv := g.val(x.Index)
+		if av.S == sortStr {
+			i64 := to64(iv)
+			g.oblige("index", g.siteNames[x], guard, and(fmt.Sprintf("(bvsle (_ bv0 64) %s)", i64), fmt.Sprintf("(bvslt %s (slen %s))", i64, av.T)), "string index in range", x.Pos())
+			g.defVal(x, fmt.Sprintf("(sat %s %s)", av.T, i64))
+			return
+		}
 		n := x.X.Type().Underlying().(*types.Array).Len()
 		i64 := to64(iv)
 		g.oblige("index", g.siteNames[x], guard, and(fmt.Sprintf("(bvsle (_ bv0 64) %s)", i64), fmt.Sprintf("(bvslt %s %s)", i64, bvInt(n, 64))), "array index in range", x.Pos())
@@ -1143,4 +1163,52 @@ func (g *FnGen) lockHeldFor(tn, base string) string {
 		return "false"
 	}
 	return "false"
+}
+
+type autoInv struct {
+	phi *ssa.Phi
+	inv func(term string) string
+}
+
+// rangeIndexInvariants recognises the SSA shape of "for i, x := range slice":
+//   idx = phi [pre: -1, body: next]; next = idx + 1; if next < len(s) goto body else done
+func (g *FnGen) rangeIndexInvariants(h *ssa.BasicBlock) []autoInv {
+	var out []autoInv
+	for _, ins := range h.Instrs {
+		phi, ok := ins.(*ssa.Phi)
+		if !ok {
+			break
+		}
+		if phi.Comment != "rangeindex" {
+			continue
+		}
+		// find next = phi + 1 and the comparison next < L in the header
+		var next *ssa.BinOp
+		var lim ssa.Value
+		for _, in2 := range h.Instrs {
+			if bo, ok := in2.(*ssa.BinOp); ok {
+				if bo.Op == token.ADD && bo.X == phi {
+					if c, ok := bo.Y.(*ssa.Const); ok && c.Int64() == 1 {
+						next = bo
+					}
+				}
+				if bo.Op == token.LSS && next != nil && bo.X == next {
+					lim = bo.Y
+				}
+			}
+		}
+		if next == nil || lim == nil {
+			continue
+		}
+		if _, defined := g.vals[lim]; !defined {
+			if _, isConst := lim.(*ssa.Const); !isConst {
+				continue
+			}
+		}
+		limT := g.val(lim).T
+		out = append(out, autoInv{phi: phi, inv: func(t string) string {
+			return and(fmt.Sprintf("(bvsle (bvneg (_ bv1 64)) %s)", t), fmt.Sprintf("(bvslt %s (bvadd %s (_ bv1 64)))", t, limT), fmt.Sprintf("(bvsle %s (_ bv%d 64))", limT, int64(1)<<56))
+		}})
+	}
+	return out
 }
